@@ -288,7 +288,7 @@ def validate(sessions, workdir, tag, stats):
                 rows.append(e)
                 owner.append(sid)
         vlib.ndjson_write(path, rows)
-        res, r = tlc_trace(path, os.environ.get("C12_TRACE_CFG", "TraceDap_model.cfg"), f"c12-V-{tag}-{rounds}")
+        res, r = tlc_trace(path, os.environ.get("C12_TRACE_CFG", "TraceDap_model_current.cfg"), f"c12-V-{tag}-{rounds}")
         stats["tlc_trace_runs"] += 1
         stats["trace_states"] += r.distinct
         consumed = res["consumed"]
